@@ -66,7 +66,9 @@ CONSTANTS
     UNBUFFERED_HANDOFF, RANDOM_SELECT, DOUBLE_COUNT, DEV,
     MaxStray, MaxDup, MaxCancel, MaxFault,
     WithHist,
-    GenFocus              \* "none" | "late_fault" (generator only)
+    GenFocus,             \* "none" | "late_fault" (generator only)
+    StrictClosed          \* leg A only: TRUE = a closed connection always answers "closed" (smaller state space; the
+                          \* late-flag-read relaxation of Reserve is then not explored)
 
 VARIABLES
     maxCq, dgram,         \* configuration
@@ -128,14 +130,17 @@ Init ==
 ------------------------------------------------------------------------------
 \* callers
 
-\* ReserveNewQuery. Outcome "closed" iff the connection is closed; else "ok" iff capacity is left.
+\* ReserveNewQuery = (1) read of the closed flag, (2) later, under queueMu, the count.  (2) is the action (it is
+\* where the driver logs the call); (1) happened at some earlier instant, so "closed" is possible only if the
+\* connection is closed by now, while "ok"/"full" may also be returned shortly after a close (the flag was read
+\* before it) — C09 constrains only the count: "ok" iff capacity is left, "full" iff not.
 \* A refused attempt counts as a call (bounds the model).
 Reserve(c, o) ==
     /\ pc[c] = "idle" /\ gen[c] < MaxCalls
     /\ CASE o = "closed" -> closed /\ gen' = [gen EXCEPT ![c] = @ + 1] /\ UNCHANGED <<pc, reserved, spurious>>
-         [] o = "ok"     -> ~closed /\ Admit /\ reserved' = reserved + 1 /\ pc' = [pc EXCEPT ![c] = "reserved"]
+         [] o = "ok"     -> Admit /\ reserved' = reserved + 1 /\ pc' = [pc EXCEPT ![c] = "reserved"]
                             /\ UNCHANGED <<gen, spurious>>
-         [] o = "full"   -> ~closed /\ ~Admit /\ gen' = [gen EXCEPT ![c] = @ + 1]
+         [] o = "full"   -> ~Admit /\ gen' = [gen EXCEPT ![c] = @ + 1]
                             /\ spurious' = (spurious \/ Cardinality(Active) < maxCq)
                             /\ UNCHANGED <<pc, reserved>>
     /\ H([a |-> "Reserve", c |-> c, o |-> o])
@@ -386,7 +391,7 @@ ReaderStep == ArmIdle \/ Dispatch \/ ReaderClose \/ ReaderDies \/ ConnClose
 
 Next ==
     \/ \E c \in Callers :
-         \/ \E o \in {"ok", "full", "closed"} : Reserve(c, o)
+         \/ \E o \in {"ok", "full", "closed"} : ((StrictClosed /\ closed) => o = "closed") /\ Reserve(c, o)
          \/ Withdraw(c) \/ Start(c) \/ CallerStep(c) \/ WriteFail(c)
          \/ (Resend(c) /\ ~resent[c])
          \/ Cancel(c)
@@ -447,7 +452,7 @@ FaultOK == GenFocus # "late_fault" \/ \E c \in Callers : arrived[c].k = "reply"
 GenNext ==
     /\ ~Terminal
     /\ \/ \E c \in Callers :
-             \/ \E o \in {"ok", "full", "closed"} : Reserve(c, o)
+             \/ \E o \in {"ok", "full", "closed"} : (closed => o = "closed") /\ Reserve(c, o)
              \/ Withdraw(c) \/ Start(c) \/ CallerStep(c) \/ Cancel(c)
              \/ (FaultOK /\ WriteFail(c))
        \/ ReaderStep
